@@ -67,6 +67,14 @@ def generate(rng, tier, shard, nshards):
             else:
                 c = 1.0 - gens.logu(rng, 1e-9, 0.5)
             q = (c * p + np.sqrt(max(0.0, 1 - c * c)) * o) * float(rng.choice([-1, 1]))
+            if reg == "orthogonal" and i % 4 == 1:      # inner product EXACTLY 0.0: identity vs an exact half-turn, two basis quaternions, (1,1,0,0)/sqrt2 vs (1,-1,0,0)/sqrt2
+                E = np.array([[1, 0, 0, 0], [0, 1, 0, 0], [0, 0, 1, 0], [0, 0, 0, 1], [1, 1, 0, 0], [1, -1, 0, 0], [0, 0, 1, 1], [0, 0, 1, -1], [1, 1, 1, 1], [1, -1, 1, -1],
+                              [1, 1, -1, -1], [1, -1, -1, 1]], float)
+                while True:
+                    a_, b_ = E[int(rng.integers(len(E)))], E[int(rng.integers(len(E)))]
+                    if float(a_ @ b_) == 0.0:
+                        break
+                p, q = a_ / np.linalg.norm(a_) * float(rng.choice([-1, 1])), b_ / np.linalg.norm(b_) * float(rng.choice([-1, 1]))
         t = np.sort(np.r_[0.0, rng.uniform(0, 1, int(rng.integers(1, 8))), 1.0])
         yield Case("pair", "pair:" + reg, p=p, q=q, t=t)
     # NaN runs: enumerate (N, start, length) and deal them round-robin to shards
